@@ -28,7 +28,7 @@ static llvm::cl::opt<std::string> OutDir("o", llvm::cl::desc("output dir"), llvm
                                          llvm::cl::cat(Cat));
 
 static int64_t safeInt(const llvm::APSInt &v) {
-  if (v.isUnsigned()) { if (v.getActiveBits() <= 63) return (int64_t)v.getZExtValue(); return INT64_MAX; }
+  if (v.isUnsigned()) { if (v.getActiveBits() <= 64) return (int64_t)v.getZExtValue(); /* wraps: (size_t)-1 is -1 */ return INT64_MAX; }
   if (v.getMinSignedBits() <= 64) return v.getExtValue();
   return v.isNegative() ? INT64_MIN : INT64_MAX;
 }
